@@ -38,7 +38,8 @@ KINDS = ["map_dyn", "map_static", "fast_dyn", "fast_static"]
 XKINDS = ["raw_map", "raw_fast", "vmap_dyn", "vfast_dyn"]
 OPS = {"ins": ["insert"], "inser": ["insert", "erase"], "table": ["insert2", "erase", "dispatch"],
        "table_noerase": ["insert2", "dispatch"], "sim": ["insert", "erase", "dispatch", "clone"],
-       "sim_noerase": ["insert", "dispatch", "clone"]}
+       "sim_noerase": ["insert", "dispatch", "clone"], "tableb": ["insertb", "dispatch"],
+       "insernew2": ["insert", "erase", "new2"]}
 
 
 def plan(kind, ar, nx, k, ops, mh=999, mc=999, clone=False):
@@ -105,13 +106,16 @@ def edge_plans(q, can_erase):
         return "table" if can_erase(kind) else "table_noerase"
     if q:
         return [plan("map_dyn", 2, 1, 3, "table", mc=1), plan("fast_static", 2, 1, 3, tops("fast_static"), mc=1),
-                plan("map_static", 1, 3, 3, "table", mc=2), plan("raw_map", 1, 0, 3, "table", mc=2), plan("vfast_dyn", 2, 1, 2, tops("vfast_dyn"), mc=1)]
+                plan("map_static", 1, 3, 3, "table", mc=2), plan("raw_map", 1, 0, 3, "table", mc=2), plan("vfast_dyn", 2, 1, 2, tops("vfast_dyn"), mc=1),
+                plan("fast_dyn", 2, 1, 2, "tableb", mc=2), plan("map_dyn", 1, 0, 3, "tableb", mc=2)]
     return [plan("map_dyn", 2, 1, 3, "table", mc=2), plan("fast_static", 2, 1, 3, tops("fast_static"), mc=2),
             plan("map_static", 2, 2, 3, "table", mc=2), plan("fast_dyn", 2, 0, 3, tops("fast_dyn"), mc=2),
             plan("map_dyn", 1, 1, 4, "table", mc=4), plan("fast_dyn", 1, 3, 4, tops("fast_dyn"), mc=3),
             plan("map_static", 3, 0, 2, "table", mc=2), plan("fast_static", 3, 1, 2, tops("fast_static"), mc=2),
             plan("raw_map", 2, 1, 3, "table", mc=2), plan("raw_fast", 1, 0, 4, tops("raw_fast"), mc=3),
-            plan("vmap_dyn", 2, 1, 3, "table", mc=1), plan("vfast_dyn", 2, 1, 3, tops("vfast_dyn"), mc=2)]
+            plan("vmap_dyn", 2, 1, 3, "table", mc=1), plan("vfast_dyn", 2, 1, 3, tops("vfast_dyn"), mc=2),
+            plan("fast_dyn", 2, 2, 2, "tableb", mc=3), plan("map_dyn", 1, 0, 3, "tableb", mc=3), plan("fast_static", 1, 1, 3, "tableb", mc=3),
+            plan("map_static", 2, 0, 2, "tableb", mc=3), plan("vmap_dyn", 1, 0, 3, "tableb", mc=2)]
 
 
 def sim_plans(ctx, q, can_erase, can_copy):
@@ -218,12 +222,14 @@ def run(ctx):
 
         def add_cov(r):
             for k, v in r.get("coverage", {}).items():
-                if k.startswith("N") or k in ("Insert", "Erase", "Dispatch", "Clone", "Take", "Drop2", "Static", "StaticSym", "Accept", "Cyclic"):
+                if k.startswith("N") or k in ("Insert", "Erase", "Dispatch", "Clone", "Take", "Drop2", "New2", "Static", "StaticSym", "Accept", "Cyclic"):
                     c = actcov.setdefault(k, [0, 0])
                     c[0] += v[0]
                     c[1] += v[1]
         mc_jobs = [("DispatchMC", "Dispatch_mc.cfg" if q else "Dispatch_mc_thorough.cfg", "L1 tables x every call: exactness, purity, one-cell updates%s" % (", copies are values (two objects)" if q else " (one object, 3 classes, arities 1..3)"), True),
-                   ("DispatchMC", "Dispatch_mc_hist.cfg" if q else "Dispatch_mc_hist_thorough.cfg", "L1 histories: tables = last registration per tuple / replayed lineage of copies", True)]
+                   ("DispatchMC", "Dispatch_mc_hist.cfg" if q else "Dispatch_mc_hist_thorough.cfg", "L1 histories: tables = last registration per tuple / replayed lineage of copies", True),
+                   ("DispatchMC", "Dispatch_mc_beh.cfg" if q else "Dispatch_mc_beh_thorough.cfg", "L1 tables x every call with plain / throwing / nesting handlers and an independent second object: exactness incl. the nested call", True),
+                   ("DispatchMC", "Dispatch_mc_hist_new2.cfg", "L1 histories with independently constructed second objects", True)]
 
         if not q:
             mc_jobs.append(("DispatchMC", "Dispatch_mc_thorough_clone.cfg", "L1 tables x every call with two objects and copies (2 classes, <= 3 registered tuples each)", True))
@@ -326,7 +332,8 @@ def run(ctx):
                   plan("fast_static", 1, 1, 4, hops("fast_static"), 3), plan("map_dyn", 1, 0, 3, "inser", 3),
                   plan("fast_static", 3, 0, 2, hops("fast_static"), 3),
                   plan("raw_fast", 2, 1, 3, hops("raw_fast"), 3), plan("raw_map", 1, 0, 3, "inser", 3),
-                  plan("vfast_dyn", 2, 1, 3, hops("vfast_dyn"), 3), plan("vmap_dyn", 1, 0, 3, "inser", 2)]
+                  plan("vfast_dyn", 2, 1, 3, hops("vfast_dyn"), 3), plan("vmap_dyn", 1, 0, 3, "inser", 2),
+                  plan("map_static", 1, 1, 2, "insernew2", 3)]
         if cl:
             hplans += [plan("map_dyn", 2, 1, 2, "inser", 3, clone=True), plan("fast_static", 2, 1, 2, hops("fast_static"), 3, clone=True),
                        plan("fast_dyn", 1, 0, 3, hops("fast_dyn"), 3, clone=True)]
@@ -340,7 +347,8 @@ def run(ctx):
                   plan("map_dyn", 3, 0, 3, "ins", 2), plan("map_static", 3, 1, 2, "inser", 3),
                   plan("fast_static", 3, 0, 3, hops("fast_static"), 3), plan("fast_dyn", 3, 1, 2, hops("fast_dyn"), 4),
                   plan("raw_fast", 2, 1, 3, hops("raw_fast"), 4), plan("raw_map", 2, 1, 2, "inser", 3), plan("raw_map", 1, 0, 3, "inser", 3),
-                  plan("vfast_dyn", 2, 1, 3, hops("vfast_dyn"), 4), plan("vmap_dyn", 2, 1, 2, "inser", 3), plan("vfast_dyn", 1, 0, 5, hops("vfast_dyn"), 3)]
+                  plan("vfast_dyn", 2, 1, 3, hops("vfast_dyn"), 4), plan("vmap_dyn", 2, 1, 2, "inser", 3), plan("vfast_dyn", 1, 0, 5, hops("vfast_dyn"), 3),
+                  plan("map_static", 1, 1, 2, "insernew2", 4), plan("map_dyn", 2, 1, 2, "insernew2", 3)]
         if cl:
             hplans += [plan("map_dyn", 2, 1, 2, "inser", 4, clone=True), plan("fast_static", 2, 1, 2, hops("fast_static"), 4, clone=True),
                        plan("fast_dyn", 1, 0, 3, hops("fast_dyn"), 4, clone=True), plan("map_static", 1, 0, 2, "inser", 4, clone=True),
@@ -416,6 +424,18 @@ def run(ctx):
     for kind in XKINDS:
         r2_ = random.Random(ctx.seed * 7919 + 100 + XKINDS.index(kind))
         add("rnd-%s" % kind, R.drv_key(kind, 2), G.random_script(r2_, kind, can_erase(kind), can_copy, 15 if q else 150, 30, [1, 2], small=True))
+    # handler behaviours: handlers that throw a user exception, handlers that dispatch again through the same object;
+    # map kinds: independently constructed second objects among the copies
+    for kind in KINDS + ["vmap_dyn", "vfast_dyn"]:
+        r2_ = random.Random(ctx.seed * 6151 + 300 + len(kind) + R.PART_NO[R.PART_OF_KIND[kind]])
+        sm = kind in XKINDS
+        add("beh-%s" % kind, R.drv_key(kind, 2), G.random_script(r2_, kind, can_erase(kind), can_copy, 25 if q else 250, 30, [1, 2], small=sm, kmax=4,
+                                                                  beh=G.BEH_IDS, new2=kind not in G.FAST_KINDS))
+        if (kind, 3, "asan") in want:
+            add("beh3-%s" % kind, (kind, 3, "asan"), G.random_script(r2_, kind, can_erase(kind), can_copy, 8 if q else 60, 30, [3], beh=G.BEH_IDS))
+        # advisory (not covered by the statement): handlers that register in the dispatcher they are called through
+        add("adv-reg-%s" % kind, R.drv_key(kind, 2), G.random_script(r2_, kind, can_erase(kind), False, 10 if q else 80, 24, [1, 2], small=sm, kmax=3,
+                                                                      beh=G.REG_IDS + G.BEH_IDS))
     # the upstream tests' own call sequences, everything logged and validated
     for kind, lines in sorted(G.upstream_scripts().items()):
         add("upstream-%s" % kind, (kind, 12, "asan"), lines)
@@ -460,11 +480,14 @@ def run(ctx):
     def run_job(s):
         bulk = s["name"].startswith(("hist-", "edges-"))
         return R.run_script(ctx, built[s["key"]], s["lines"], os.path.join(tdir, s["name"]), fresh=s["fresh"], uar=not bulk)
-    traces, fast_traces = [], []
+    traces, fast_traces, adv_traces = [], [], []
     nevents = nrestarts = nlost = 0
     with ThreadPoolExecutor(max_workers=max(2, core.NCPU // 2)) as ex:
         for s, (tr, restarts, lost) in zip(scripts, ex.map(run_job, scripts)):
-            traces.append((s["name"], tr))
+            if s["name"].startswith("adv-"):
+                adv_traces.append((s["name"], tr))
+            else:
+                traces.append((s["name"], tr))
             if s["key"][0] in ("fast_dyn", "fast_static") and s["key"][2] == "asan" and s["name"].startswith(("hist", "rnd", "sim")):
                 fast_traces.append(tr)
             nevents += len(tr)
@@ -489,6 +512,8 @@ def run(ctx):
     stg.done("trace validation against L1")
     report(ctx, rejs, built, findings)
     stg.done("confirmation of rejections")
+    advisory_stages(ctx, q, adv_traces, built, have_clang)
+    stg.done("advisory stages (re-entrant registration, two fast dispatchers, hierarchy generators)")
 
     # ---- advisory: class indices / exception types of the fast dispatcher against L2
     if not ctx.violations and fast_traces:
@@ -524,6 +549,62 @@ def run(ctx):
         k0 = sorted(hard)[0]
         raise MachineryError("driver %s does not build against this tree and no violation was found: %s" % (k0, berrs[k0][-3000:]))
     return finish(ctx, q, t_cpu0, caps)
+
+
+def advisory_stages(ctx, q, adv_traces, built, have_clang):
+    """Behaviour the property statement does not cover: modelled all the same, deviations are MODEL-DRIFT notes."""
+    # (a) handlers that register in the dispatcher they are being called through (L1 reading: the registration takes
+    #     effect in that object, the running call completes)
+    if adv_traces:
+        tdir = ctx.sub("validate")
+        p = os.path.join(tdir, "adv-reentrant.ndjson")
+        with open(p, "w") as f:
+            f.write("\n".join(l for _, tr in adv_traces for l in tr) + "\n")
+        n0 = ctx.cov["events_validated"]
+        rejs = R.validate_files(ctx, [p])
+        ctx.notes["advisory_reentrant_events_validated"] = ctx.cov["events_validated"] - n0
+        ctx.notes["advisory_reentrant_rejections"] = len(rejs)
+        for r in rejs[:2]:
+            ctx.drift.append("ADVISORY re-entrant registration (a handler registers in the dispatcher it is called through; not covered by the "
+                             "statement): event %d of %s deviates from Dispatch.tla: %s" % (r["idx"] + 1, os.path.basename(p), r["execution"][-1][:400]))
+    # (b) two independently constructed fast dispatchers over one hierarchy (the statement assumes one): TLC searches
+    #     FastDispatchImpl for the shortest history after which a tuple reaches a handler its object's history does
+    #     not give it; the history is replayed on the real dispatchers and must behave as the L2 model says
+    # (dynamic caster: with the static caster the same histories end in a static_cast to an unrelated class, i.e. undefined behaviour)
+    key = ("fast_dyn", 12, "asan")
+    if key in built:
+        r = core.tlc(ctx, "FastDispatchImpl", "FastDispatchImpl_two_fresh.cfg", name="two-fresh-witness", workers=1, env=R.JENV)
+        ws = G.emitted(r["out"], "@W@")
+        ctx.notes["two_fast_dispatchers"] = {"tlc_states": r["distinct"], "witness": None}
+        if not ws:
+            ctx.drift.append("ADVISORY two independent fast dispatchers: FastDispatchImpl.tla has no history (<= 4 calls, 2 classes) after which "
+                             "a tuple reaches a foreign handler - the model no longer shows the documented restriction, see %s" % r["outfile"])
+        else:
+            w = ws[0]
+            lines = [G.reset_ev(w["cfg"])] + [G.hist_event(e) for e in w["hist"]]
+            for d, t in sorted(w["dev"]):
+                lines.append({"op": "Dispatch", "a": {"d": d, "os": [10 * c for c in t], "xs": []}})
+            tr, _, _ = R.run_script(ctx, built[key], lines, os.path.join(ctx.sub("traces"), "adv-two-fresh"), fresh=True)
+            p = os.path.join(ctx.sub("validate"), "adv-two-fresh.ndjson")
+            with open(p, "w") as f:
+                f.write("\n".join(tr) + "\n")
+            r2 = core.validate_trace(ctx, "FastDispatchImplTrace", "FastDispatchImplTrace_two_fresh.cfg", p, name="two-fresh-l2", explain=False, env=R.JENV)
+            r1 = core.validate_trace(ctx, "DispatchTrace", "DispatchTrace.cfg", p, name="two-fresh-l1", explain=False, env=R.JENV)
+            calls = "; ".join("%s%s" % (l["op"], json.dumps(l["a"], separators=(",", ":"))) for l in lines[1:])
+            ctx.notes["two_fast_dispatchers"]["witness"] = calls
+            ctx.notes["two_fast_dispatchers"]["real_code_as_l2_predicts"] = bool(r2["accepted"])
+            ctx.notes["two_fast_dispatchers"]["real_code_conforms_to_l1"] = bool(r1["accepted"])
+            if not r2["accepted"]:
+                ctx.drift.append("ADVISORY two independent fast dispatchers: the real code does not behave as FastDispatchImpl.tla predicts on TLC's "
+                                 "witness (%s): event %d of %s" % (calls, r2["fail_line"] + 1, p))
+            elif not r1["accepted"]:
+                ctx.drift.append("ADVISORY two independently constructed fast dispatchers over one hierarchy (outside the statement, which assumes one): "
+                                 "as FastDispatchImpl.tla predicts (the second object's m_next_index restarts at 0 while the static class indices are shared), "
+                                 "after [%s] a registered tuple is lost or reaches the cell of another class (event %d of %s is not a step of "
+                                 "Dispatch.tla)" % (calls, r1["fail_line"] + 1, p))
+    # (c) xhierarchy_generator.hpp
+    from checks import c17_hier
+    c17_hier.run(ctx, 3 if q else 4, ("g++",) if q or not have_clang else ("g++", "clang++"))
 
 
 def report(ctx, rejs, built, findings):
@@ -616,7 +697,11 @@ def finish(ctx, q, t_cpu0, caps, note=None):
                      "statement and Loki's is-a matching disagree, so both on_error and the handler of a listed ancestor are accepted",
                      "the exception type used to report an unregistered tuple is not constrained by L1; in an XTL_NO_EXCEPTIONS build aborting "
                      "the (isolated) calling process after the library's message counts as the error report",
-                     "copying / moving / swapping dispatcher objects is not named by the property: explored where the types are copyable, as values"],
+                     "copying / moving / swapping dispatcher objects is not named by the property: explored where the types are copyable, as values",
+                     "handler behaviours are fixtures: plain, throwing a user exception (must reach the caller unchanged, tables untouched), dispatching "
+                     "again through the same object (the nested call is a dispatch like any other; depth 1). Advisory only (outside the statement): a "
+                     "handler that registers in the dispatcher it is called through; a second independently constructed fast dispatcher over the same "
+                     "hierarchy (TLC's shortest deviating history is replayed and must behave as FastDispatchImpl.tla predicts); xhierarchy_generator.hpp"],
         exhaustive=False)
 
 
